@@ -23,7 +23,7 @@ COMPONENTS = {
     'stub': ['OS thread scheduling', 'time.perf_counter / time.sleep (virtual clock; sleep returns exactly on time)', 'underlying streams with seeded latency', 'object store (profile 2)'],
 }
 ASSUMPTIONS = ['sleep returns exactly on time and runnable threads are not descheduled for measurable time (negative debt after an oversleep is not capped by the limiter: reported as information in DESIGN.md, not as a violation)', 'request sizes d <= L/4 as the commands choose (limit // (16*concurrency))']
-PROBES = ['think_time', 'multi_stream', 'latency_comparable', 'slept', 'preempted', 'command_profile', 'seek_truncate', 'writes']
+PROBES = ['think_time', 'multi_stream', 'latency_comparable', 'slept', 'preempted', 'command_profile', 'same_object_two_limits', 'seek_truncate', 'writes']
 TIERS = {'quick': {'budget_s': 45, 'batch': 20}, 'thorough': {'budget_s': 600, 'batch': 40}}
 
 
@@ -32,7 +32,10 @@ def gen_case(seed, tier):
     if rng.random() < 0.15:
         return {'seed': seed, 'sched_seed': seed, 'kind': 'command', 'L': rng.choice([500, 2000, 8000, 20000, 50000]), 'N': rng.choice([1, 1, 2, 3]),
                 'size': rng.choice([500, 3000, 9000, 40000, 120000]), 'big_chunks': rng.random() < 0.5,
-                'objects': rng.random() < 0.4, 'opts': world.SchedOpts.swarm(rng).as_dict(), 'flavour': rng.choice(['sync', 'async'])}
+                'objects': rng.random() < 0.4, 'opts': world.SchedOpts.swarm(rng).as_dict(), 'flavour': rng.choice(['sync', 'async']),
+                # one long-lived process (same Repository object) for snapshot and restore, the restore under another limit
+                'live': substream(seed, 'c20-live').random() < 0.5,
+                'L_restore_factor': substream(seed, 'c20-live2').choice([1, 1, 0.1, 0.25, 4])}
     L = rng.choice([100, 1000, 64000, 10**6, 12345])
     n = rng.choice([1, 1, 2, 3, 4])
     dmax = max(L // 4, 1)
@@ -334,7 +337,10 @@ def run_command(case):
         r0 = W.init(client, settings, world.SchedOpts.sequential())
         L = case['L']
         t0 = W.env.now
-        r1 = W.snapshot(client, [src], opts, rate_limit=L)
+        live = bool(case.get('live'))
+        if live:
+            probes['same_object_two_limits'] = 1
+        r1 = W.snapshot(client, [src], opts, rate_limit=L, live=live)
         t1 = W.env.now
         if not r1.ok:
             viol.append({'cls': 'command-failed', 'sig': {'cmd': 'snapshot'}, 'msg': f'snapshot with rate limit failed: {r1.outcome()} {r1.exc or r1.hang!r}'})
@@ -383,8 +389,12 @@ def run_command(case):
                 _os.chdir(cwd)
             if viol:
                 return {'violations': viol, 'digest': W.digest(), 'probes': probes, 'sim_s': W.sim_s, 'steps': W.sim_steps}
+        # (the whole restore has to fit into the simulated-time cap of one process)
+        L = max(int(L * case.get('L_restore_factor', 1)), 1, sum(len(v) for v in want.values()) // 1500 + 1)
+        d = max(L // (case['N'] * 16), 1)
+        A = 0.5 * L + (case['N'] + 1) * d
         t0 = W.env.now
-        r2 = W.restore(client, W.dir / 'out', opts, rate_limit=L)
+        r2 = W.restore(client, W.dir / 'out', opts, rate_limit=L, live=live)
         t1 = W.env.now
         if not r2.ok:
             viol.append({'cls': 'command-failed', 'sig': {'cmd': 'restore'}, 'msg': f'restore with rate limit failed: {r2.outcome()} {r2.exc or r2.hang!r}'})
